@@ -26,19 +26,26 @@ Sign convention read off the code: fields -> vevLowT for z -> -inf, vevHighT for
 chi increases with z, ``pressure = integral(weight=-dz/dchi)`` of dV/dphi.dphi/dz, i.e.
 P = -[V]_{-inf}^{+inf} = V(low) - V(high), as the property states.
 
-Tolerance of the pressure oracle, per evaluation:
-    tau = K_QUAD * S + 8 * fd_bound + 4 * (excess_low + excess_high) + 256 eps S
+Tolerance of the pressure oracle, per evaluation (deviation from DESIGN recorded here):
+    P is compared with V(vevLow) - V(vevHigh) evaluated (closed-form V) at the end points
+    actually passed = thermo.freeEnergyLow/High(T).fieldsAtMinimum, exactly what
+    wallPressure passes.  Their free-energy excess over the closed-form minima is the
+    P_trace admissibility predicate (<= 1e-3 S) and recorded; observed: <= 1e-12 S for
+    s >~ 0.05, up to 1e-3 S for s ~ 1e-2 because findLocalMinimum's scipy tolerance is
+    absolute (C07/C11 business, not judged here).
+    tau = quad_tol(rho) * S + 16 * fd_bound + 256 eps (S + |V|max)
   S         = int dz sum_i |dV/dphi_i dphi_i/dz| (closed form, fine trapezoid): the mass of
               the integrand.  DESIGN states the bound relative to |Delta V|; Delta V -> 0
               at T_c while the quadrature error does not, so S (>= |Delta V|) is the scale
-              the accuracy model refers to.  |Delta V|/S is recorded.
-  K_QUAD    = 1e-8 for M >= 40 (DESIGN).  Observed on the unchanged tree, seeds 0-4 quick +
-              0-1 thorough: see CALIBRATION below.
+              an accuracy model can refer to.  |Delta V|/S is recorded.
+  quad_tol  = max(1e-8, 30 exp(-6 rho)), rho = nodes per wall width of the narrowest wall
+              on the real grid (see quad_tol() for the calibration).  DESIGN's flat 1e-8
+              for M >= 40 holds for rho >= 3.64 only (observed <= 5.3e-10 there); a
+              two-field wall with width ratio 3 and |offset| 2 at M = 40 has rho ~ 1 and an
+              error of 5e-4 S on the unchanged tree: the discretisation, not a defect.
   fd_bound  = first-order rounding bound of the 4th-order stencil with the step the code
-              derives from fieldValueVariationScale (exact on quartics otherwise)
-  excess    = V(code's minimum) - V(closed-form minimum) of the end points actually passed
-              (they are thermo.freeEnergyLow/High(T).fieldsAtMinimum, exactly what
-              wallPressure passes); second order in the tracer's error.
+              derives from fieldValueVariationScale (exact on quartics otherwise);
+              observed error <= 0.42 x (8 x bound) in the gradient monitor.
 """
 from __future__ import annotations
 
@@ -64,17 +71,38 @@ RULE = ("one real WallGoManager/EOM per case on a random zoo potential (bag1: T-
 ASSUMPTIONS = [
     "closed-form minima and V at the minima of the zoo potentials (float64 evaluation) are the reference",
     "P_trace: an evaluation whose end points (thermo.freeEnergy*(T).fieldsAtMinimum) have a "
-    "free-energy excess > 1e-9 S over the closed-form minimum is counted inadmissible (C11 domain)",
-    "quadrature accuracy model K_QUAD*S is calibrated (DESIGN C09: 1e-8 for M>=40), the other "
-    "tolerance terms are propagated rounding bounds",
+    "free-energy excess > 1e-3 S over the closed-form minimum is counted inadmissible (C11 domain)",
+    "quadrature accuracy model max(1e-8, 30 exp(-6 rho)) S is calibrated on the unchanged tree "
+    "(margins 19 and 11), the other tolerance terms are propagated rounding bounds",
+    "temperatures are drawn inside the tabulated range of both phases and inside their "
+    "analytic existence intervals",
     "wallPressure on bag1 is judged only when the action minimiser's final widths are within "
     "a factor 3 of those the grid was mapped to (the property quantifies over shapes resolved by the grid)",
 ]
 CASE_TIMEOUT = 600
 CHUNK = 1
 MS = (40, 50, 64, 80, 100)
-K_QUAD = 1e-8
-P_TRACE = 1e-6     # admissible free-energy excess of a passed end point, in units of S
+K_QUAD = 1e-8      # DESIGN C09 constant for resolved shapes
+C_RES, B_RES = 30.0, 6.0   # under-resolved shapes: tau/S = C exp(-B rho), see quad_tol()
+P_TRACE = 1e-3     # admissible free-energy excess of a passed end point, in units of S
+                   # (detects a phase hop; the identity itself is judged for the end points
+                   # actually passed, so a slightly off-minimum end point costs nothing)
+
+
+def quad_tol(rho):
+    """Accuracy model of the Gauss-Lobatto quadrature of a sech^2-type integrand, relative
+    to the integrand mass S.  rho = wall width / largest node spacing across that wall
+    (narrowest wall decides; oracles/c09_ref.resolution on the real grid's nodes).
+
+    The integrand is analytic in a strip of half-width pi L/2, so the error falls like
+    exp(-c rho).  CALIBRATION (unchanged tree; quick seeds 0-3 = 1300 evaluations, thorough
+    seed 0 = 5575): for rho >= 3.2 max |P-dV|/S = 5.3e-10 (p99 1.1e-10, median 2e-13);
+    for rho < 3.2 max |P-dV|/(S exp(-6 rho)) = 2.65 (quick) / 2.51 (thorough), i.e. the
+    envelope does not move with the sample size.  C = 30 leaves a factor 11, the floor
+    1e-8 a factor 19.  A two-field wall with width ratio 3 and |offset| 2 on M = 40 has
+    rho ~ 1 (error 5e-4 S): the factor-3/|offset|<=2/M>=40 box of the property is *not*
+    uniformly resolved to 1e-8, which is why the tolerance follows rho."""
+    return max(K_QUAD, C_RES * math.exp(-B_RES * rho))
 EPS = float(np.finfo(float).eps)
 
 FLOORS = {
@@ -400,7 +428,7 @@ def _drive(case, rng, b, ws, mon, sink, key0, WallGo, WallParams):
         grad_ok = True
         (ga, _gk, gout) = recGrad.last
         gref = grad_code(np.asarray(ga[0]), np.asarray(ga[1], float))
-        gtol = 4 * 1.5 * 4 * EPS * vmax / dx
+        gtol = 8 * 1.5 * 4 * EPS * vmax / dx   # observed <= 0.42 with factor 4 (thorough)
         gerr = np.max(np.abs(np.asarray(gout) - gref) / gtol[None, :]) \
             if np.shape(gout) == np.shape(gref) else math.inf
         row["gradient_ratio"] = float(gerr)
@@ -412,13 +440,13 @@ def _drive(case, rng, b, ws, mon, sink, key0, WallGo, WallParams):
 
         # --- pressure oracle
         fdb = R.fd_rounding_bound(vmax, dx, highX - lowX)
-        tol = K_QUAD * S + 8 * fdb + 256 * EPS * (S + vmax)
+        rho = R.resolution(eom.grid.xiValues, widths, offsets)
+        tol = quad_tol(rho) * S + 16 * fdb + 256 * EPS * (S + vmax)
         err = abs(press - dV_passed)
         row["err_vs_closed_form_minima"] = abs(press - dV_exact)
         row["endpoint_excess"] = [exc_low, exc_high]
-        rho = R.resolution(eom.grid.xiValues, widths, offsets)
         row.update(err=err, tol=tol, err_over_S=err / S if S else math.inf,
-                   rounding_part=8 * fdb / tol, rho=rho)
+                   rounding_part=16 * fdb / tol, rho=rho)
         if not (np.isfinite(press) and err <= tol):
             stage = ("quadrature-or-map" if (prof_ok and grad_ok) else
                      "profile" if grad_ok else "potential-gradient")
@@ -428,7 +456,8 @@ def _drive(case, rng, b, ws, mon, sink, key0, WallGo, WallParams):
                          f"{abs(dV_exact) / S:.3f}) on {ctx}",
                          "data": {"spec": case["spec"], **row}})
         rows.append(row)
-        classes += [fam, f"M={M}", tlabel, f"nf={nf}"]
+        classes += [fam, f"M={M}", tlabel, f"nf={nf}",
+                    "resolved(rho>=3.64)" if quad_tol(rho) == K_QUAD else "coarse(rho<3.64)"]
         if case["relabelled"]:
             classes.append("relabelled")
         if offsets[0] != 0.0:
@@ -441,6 +470,9 @@ def _drive(case, rng, b, ws, mon, sink, key0, WallGo, WallParams):
         wpress = _wall_pressure_bag(case, rng, eom, pot, Tn, mon, sink, viol, classes, keys,
                                     key0, WallParams, recProfile)
     obs = {"spec": case["spec"], "M": M, "Tn": Tn, "rows": rows[:4], "n_rows": len(rows),
+           "err_over_tol": [r["err"] / r["tol"] for r in rows if "err" in r],
+           "endpoint_excess_over_S": [max(abs(r["endpoint_excess"][0]), abs(r["endpoint_excess"][1])) / r["S"]
+                                      for r in rows if "err" in r],
            "inadmissible": n_inadm, "wallPressure": wpress,
            "all": [[r.get("err_over_S"), r.get("profile_deriv_ratio"), r.get("gradient_ratio"),
                     r.get("dV_over_S"), r.get("rounding_part"), r.get("profile_field_ratio"),
@@ -511,17 +543,30 @@ def _wall_pressure_bag(case, rng, eom, pot, Tn, mon, sink, viol, classes, keys, 
             classes.append("wallPressure:not-resolved(not judged)")
             out.append(rec)
             continue
-        S = abs(dU) * 4          # kink of a quartic: integrand mass is O(barrier + |dU|)
+        lowX, highX = pot.to_code(np.array([pot.vev()])), pot.to_code(np.array([0.0]))
+        S, _ = R.integrand_scale(grad_code_fn(pot), lowX, highX, np.asarray(wpo.widths, float),
+                                 np.zeros(1), Tn)
+        rho = R.resolution(eom.grid.xiValues, np.asarray(wpo.widths, float), np.zeros(1))
         fdb = R.fd_rounding_bound(max(abs(dU), pot.a * (1.3 * max(Tp, Tm)) ** 4),
                                   np.asarray(pot.derivativeSettings.fieldValueVariationScale,
                                              float) * 1e-3, [pot.vev()])
-        tol = K_QUAD * S * 10 + 8 * fdb
-        err = abs(float(press) - dU)
-        rec.update(dU=dU, err=err, tol=tol)
+        # end points wallPressure itself used (P_window holds, so its clamps are inactive)
+        vlo = eom.thermo.freeEnergyLow(Tm).fieldsAtMinimum
+        vhi = eom.thermo.freeEnergyHigh(Tp).fieldsAtMinimum
+        dU_passed = float(np.ravel(pot.V_code(np.asarray(vlo), Tn))[0]
+                          - np.ravel(pot.V_code(np.asarray(vhi), Tn))[0])
+        rec["endpoint_excess_over_S"] = abs(dU_passed - dU) / S
+        if abs(dU_passed - dU) > P_TRACE * S:
+            classes.append("wallPressure:inadmissible-P_trace")
+            out.append(rec)
+            continue
+        tol = quad_tol(rho) * S + 16 * fdb + 256 * EPS * S
+        err = abs(float(press) - dU_passed)
+        rec.update(dU=dU_passed, dU_closed_form_minima=dU, err=err, tol=tol, rho=rho, S=S)
         if not (np.isfinite(press) and err <= tol):
             viol.append({"mech": "wallPressure-bag-not-free-energy-difference",
                          "msg": f"wallPressure(v_w={vw:.4f}) = {float(press)!r} on a T-independent "
-                         f"field potential, U(v)-U(0) = {dU!r} (|diff| {err:.3e} > {tol:.3e}; "
+                         f"field potential, U(low)-U(high) = {dU_passed!r} (|diff| {err:.3e} > {tol:.3e}; "
                          f"final L*Tn={rec['widths_Tn']}, M={eom.grid.M})",
                          "data": {"spec": case["spec"], **rec}})
         classes.append("wallPressure:" + rec["branch"])
@@ -533,7 +578,7 @@ def _wall_pressure_bag(case, rng, eom, pot, Tn, mon, sink, viol, classes, keys, 
 # ---------------------------------------------------------------------------- evidence
 def summarize(results, tier):
     by = {}
-    prof, grad, fld = [], [], []
+    prof, grad, fld, eot, exc, rhos = [], [], [], [], [], []
     wp_err = []
     for r in results:
         if r.get("inconclusive"):
@@ -541,9 +586,15 @@ def summarize(results, tier):
         obs = r.get("obs") or {}
         M = obs.get("M")
         fam = (obs.get("spec") or {}).get("family")
+        eot += [float(x) for x in obs.get("err_over_tol") or [] if isinstance(x, (int, float))]
+        exc += [float(x) for x in obs.get("endpoint_excess_over_S") or [] if isinstance(x, (int, float))]
         for e in obs.get("all") or []:
             if e[0] is None or isinstance(e[0], str):
                 continue
+            if isinstance(e[6], (int, float)):
+                rhos.append(float(e[6]))
+                tag = "rho<2" if e[6] < 2 else "2<=rho<3.64" if e[6] < 3.64 else "rho>=3.64"
+                by.setdefault(tag, []).append(float(e[0]))
             by.setdefault(f"{fam}:M{M}", []).append(float(e[0]))
             by.setdefault("all", []).append(float(e[0]))
             for lst, v in ((prof, e[1]), (grad, e[2]), (fld, e[5])):
@@ -560,7 +611,10 @@ def summarize(results, tier):
         return {"n": int(a.size), "median": float(np.median(a)),
                 "p99": float(np.percentile(a, 99)), "max": float(a.max())}
     return {"pressure_err_over_S": {k: stats(v) for k, v in sorted(by.items())},
-            "K_QUAD": K_QUAD,
+            "K_QUAD": K_QUAD, "C_RES": C_RES, "B_RES": B_RES,
+            "pressure_err_over_tol": stats(eot),
+            "endpoint_excess_over_S": stats(exc),
+            "resolution_rho": stats(rhos),
             "profile_derivative_err_over_bound": stats(prof),
             "profile_field_err_over_bound": stats(fld),
             "gradient_err_over_bound": stats(grad),
